@@ -311,11 +311,33 @@ func c10Scenarios(tier string) []txScen {
 	return s
 }
 
+// c10History: lost wake-ups that need virtual time to pass before the change
+// lands (E1): a publish arrives D after a blocking Pull started - after the
+// Pull's retry timer for a lease (possibly extended meanwhile) has fired and it
+// has re-queried and gone back to waiting.
+func c10History(tier string) []*hist.Scenario {
+	return []*hist.Scenario{{
+		ID: "C10/publish-while-a-pull-waits", Prop: "C10", Depth: d(tier, 4, 5), Drain: true,
+		Cfg: model.Cfg{Topics: []string{"T0"}, Subs: []model.SubCfg{{Name: "S0", Topic: "T0"}, {Name: "S1", Topic: "T0", Ordered: true}}},
+		Alphabet: []model.Op{
+			pub1("T0", "", 0), pub1("T0", "K1", 0),
+			pull("S0", 10), pull("S1", 10),
+			modack("S0", "all", 60*time.Second), modack("S0", "all", 0), ack("S1", "oldest"),
+			tick("lease-"),
+			pullWaitPub("S0", "T0", time.Second), pullWaitPub("S0", "T0", 15*time.Second), pullWaitPub("S0", "T0", 30*time.Second),
+			pullWaitPub("S1", "T0", 15*time.Second),
+			// ... and 5 s into the wait the holder of the leased messages extends them
+			{K: "pullWaitPub", Sub: "S0", Topic: "T0", Max: 10, D: 15 * time.Second, Sel: "all"},
+		},
+	}}
+}
+
 // c10StreamLayer is set by the shim build: StreamingPull waiters, explored at
 // the streamer's lock / transaction gates.
 var c10StreamLayer func(t *testing.T, tier string, deadline time.Time) (map[string]any, []report.Viol, error)
 
 func init() {
+	histExtra["C10"] = c10History
 	otherChecks["C10"] = func(t *testing.T, tier string) int {
 		t0 := time.Now()
 		results, err := runTxScenarios(t, c10Scenarios(tier), report.RealNow().Add(schedBudget(tier)))
@@ -343,6 +365,17 @@ func init() {
 				cov["schedule_decisions"] = cov["schedule_decisions"].(int) + n
 			}
 			viols = append(viols, v2...)
+		}
+		if os.Getenv("VERIF_NO_HIST") == "" {
+			hcov, hviol, _, rc := histPart(t, "C10", tier, c10History(tier), time.Now())
+			if rc != 0 {
+				return rc
+			}
+			cov["history_layer"] = hcov
+			if ex, _ := hcov["exhaustive"].(bool); !ex {
+				cov["schedules_exhaustive"] = false
+			}
+			viols = append(viols, hviol...)
 		}
 		cov["states"] = cov["schedule_decisions"]
 		cov["transitions"] = cov["schedule_decisions"]
@@ -582,13 +615,30 @@ func c02SchedScenarios(tier string) []txScen {
 }
 
 func init() {
+	// (C02 already has an extra part - the content corpus, c02_corpus_test.go; both run)
+	corpus := extraAfterHist["C02"]
 	extraAfterHist["C02"] = func(t *testing.T, tier string) (map[string]any, []report.Viol, error) {
+		cov := map[string]any{}
+		var viols []report.Viol
+		if corpus != nil {
+			c1, v1, err := corpus(t, tier)
+			if err != nil {
+				return nil, nil, err
+			}
+			for k, v := range c1 {
+				cov[k] = v
+			}
+			viols = append(viols, v1...)
+		}
 		res, err := runTxScenarios(t, c02SchedScenarios(tier), report.RealNow().Add(schedBudget(tier)))
 		if err != nil {
 			return nil, nil, err
 		}
-		cov, v := txCoverage("C02", res)
-		return cov, v, nil
+		c2, v2 := txCoverage("C02", res)
+		for k, v := range c2 {
+			cov[k] = v
+		}
+		return cov, append(viols, v2...), nil
 	}
 	extraAfterHist["C04"] = func(t *testing.T, tier string) (map[string]any, []report.Viol, error) {
 		res, err := runTxScenarios(t, c04SchedScenarios(tier), report.RealNow().Add(schedBudget(tier)))
